@@ -1,9 +1,18 @@
 import DustVerif.Proofs.RtpsAck
+import DustVerif.Proofs.AckWaitLemmas
+import DustVerif.Props.C01
 /-! Property C03 (protocol part): `is_change_acknowledged` — the test behind `wait_for_acknowledgments`
     (stateful_writer.rs:66, communication_methods.rs:474) — is sound: it reports a sequence number as acknowledged by
     the matched reliable reader only if every sample up to that number was delivered to the reader's cache or is gone
-    (removed from the writer's history / never relevant). The DCPS wait list, matched-reader removal and the
-    completeness clause `C03_complete` (liveness) are outside this file. -/
+    (removed from the writer's history / never relevant).
+    API level (second half of the file, namespace `DustVerif.AckWait`): the wait list of `notify_acknowledgments`
+    (writer_methods.rs:564), drained in the ACKNACK arm and in `remove_discovered_reader` (D3 repair), with any number of
+    matched readers: an answer `Ok` is given only while `is_change_acknowledged(last_change_sequence_number)` holds
+    (`C03_api_sound`), no waiter is ever lost (`C03_waiter_kept`), removing the last unacknowledging reader answers all
+    waiters at that step (`C03_complete_on_unmatch`), and nobody is left waiting while everything is acknowledged
+    (`C03_no_stuck_waiter_partial`; excluded: `remove_discovered_participant`, which never looks at the wait list —
+    `C03_participant_gone_leaves_waiter_counterexample`). The liveness clause is stated, not proved
+    (`C03_eventual_statement`) and checked by the oracle of vlib/props/C03.py. -/
 namespace DustVerif.Rtps
 
 /-- **C03_sound**: for EVERY step list (any loss, duplication, reordering, removals, re-announcements): if
@@ -56,5 +65,229 @@ theorem C03_false_ack_asis_counterexample :
          .deliver 0] with
       | .ok s => (s.w.isChangeAcknowledged 3, s.w.changes.map snOf, s.r.cache.map snOf)
       | .panic => (false, [], [])) = (true, [1, 3], [3]) := by decide
+
+/-- `is_change_acknowledged(last_change_sequence_number)` in a reachable state of the protocol model: every change the
+    writer still holds and that is relevant to the reliable reader IS in the reader's cache — the protocol half of the
+    API-level soundness (`C03_api_sound` below gives: `Ok` is answered only while this test holds). -/
+theorem C03_all_acknowledged_all_delivered (cfg : Cfg) (hfix : cfg.fixD43 = true) (hfix2 : cfg.fixD2 = true) (tl : Bool)
+    (f : Nat) (hf : 1 ≤ f) (hf16 : f < 65536) (steps : List Step) (hsteps : ∀ st, st ∈ steps → StepOK st) (s : Sys)
+    (hrun : Sys.run cfg (Sys.init true tl f) steps = .ok s) (p : RProxy) (hp : s.w.proxy = some p)
+    (hack : s.w.isChangeAcknowledged s.lastSn = true) (c : Change) (hc : c ∈ s.w.changes) (hrelv : c.sn > s.w.firstRel) :
+    c ∈ s.r.cache := by
+  have h1 := inv1_run cfg hfix steps _ s hsteps (inv1_init true tl f hf hf16) hrun
+  have hle : c.sn ≤ s.lastSn := (h1.logSn c (h1.changes c hc)).2
+  have h3 := inv3_run cfg hfix hfix2 steps _ s hsteps (inv3_init tl f hf hf16) hrun
+  have h4 := inv4_run cfg hfix true (Or.inl rfl) steps _ s (inv4_init true tl f) hrun
+  have hrel : p.reliable = true := h4.wrel p hp
+  have hack' : s.w.isChangeAcknowledged c.sn = true := by
+    simp only [Writer.isChangeAcknowledged, hp, hrel, Bool.true_and, Bool.not_eq_true', decide_eq_false_iff_not] at hack ⊢
+    omega
+  exact C03_acknowledged_is_delivered cfg hfix hfix2 tl f hf hf16 steps hsteps s hrun p hp c hc hrelv hack'
+
+/-- **C03_eventual — STATEMENT ONLY (unproved)**: from any reachable state of the repaired protocol model with a matched
+    reliable reader in which the writer still holds its last change, after at most `2·lastSn + 4` healing rounds
+    `is_change_acknowledged(last)` holds — so (by `C03_no_stuck_waiter_partial`) every `wait_for_acknowledgments` has
+    been answered. Checked by the oracle of vlib/props/C03.py (protocol engine and full stack: after healing `wait-ack`
+    answers ok within a few heartbeat periods). The hypothesis about the last change is necessary, see the next theorem. -/
+def C03_eventual_statement : Prop :=
+  ∀ (tl : Bool) (f : Nat) (steps : List Step) (s : Sys), 1 ≤ f → f < 65536 → (∀ st, st ∈ steps → StepOK st) →
+    Sys.run Cfg.fixed (Sys.init true tl f) steps = .ok s → s.w.proxy ≠ none → (∃ c, c ∈ s.w.changes ∧ c.sn = s.lastSn) →
+    ∃ k s', k ≤ 2 * s.lastSn + 4 ∧ Sys.heal Cfg.fixed k s = .ok s' ∧ s'.w.isChangeAcknowledged s'.lastSn = true
+
+/-- open finding D-rtps-3: when the LAST change is removed (lifespan expiry, …) before the reader acknowledged it, nothing
+    ever tells the reader about it — HEARTBEAT.last is the highest number still HELD and no GAP is sent for a trailing
+    removed change — so `is_change_acknowledged(last_change_sequence_number)` stays false for ever although everything
+    the writer holds was delivered, the writer is idle, and `wait_for_acknowledgments` never completes. Here: sample 1
+    delivered, sample 2 lost and removed, ten healing rounds. -/
+theorem C03_removed_last_change_never_acknowledged_counterexample :
+    (match Sys.run Cfg.fixed (Sys.init true false 8) [.doMatch, .write [1], .write [2], .drop 1, .remove 2] with
+      | .ok s => (match Sys.heal Cfg.fixed 10 s with
+          | .ok s' => (s'.w.isChangeAcknowledged 2, s'.w.isChangeAcknowledged 1, s'.r.cache.map snOf, s'.w.changes.map snOf, s'.net)
+          | .panic => (true, false, [], [], []))
+      | .panic => (true, false, [], [], [])) = (false, true, [1], [1], []) := by decide
+
+end DustVerif.Rtps
+
+/-! ## API level: the wait list -/
+namespace DustVerif.Rtps
+open DustVerif.AckWait
+
+/-- **C03_api_sound**: for every state of the wait-list automaton (any number of matched readers), every event and both
+    variants of participant removal: a waiter is answered `Ok` at a step only if, in the state that step produces,
+    `is_change_acknowledged(last_change_sequence_number)` holds — i.e. every RELIABLE reader matched at that step has
+    acknowledged every sample written so far (`isAck_iff`); with `C03_sound` / `C03_all_acknowledged_all_delivered`:
+    it holds every such sample, or the sample was never relevant to it or is no longer in the writer's history. -/
+theorem C03_api_sound (d : Bool) (s : St) (ev : Ev) (id : Nat) (h : id ∈ (step d s ev).2) :
+    (step d s ev).1.isAck = true ∧
+    ∀ p, p ∈ (step d s ev).1.proxies → p.reliable = true → (step d s ev).1.lastSn ≤ p.highestAcked := by
+  have key : (step d s ev).1.isAck = true := by
+    cases ev with
+    | write => simp [step] at h
+    | matchReader rid rel => simp only [step] at h; split at h <;> cases h
+    | acknack rid base count =>
+      simp only [step] at h ⊢
+      split at h
+      · cases h
+      · split at h
+        · cases h
+        · exact drain_answered_acked _ id h
+    | unmatch rid =>
+      simp only [step] at h ⊢
+      split at h
+      · rename_i hm; rw [if_pos hm]; exact drain_answered_acked _ id h
+      · cases h
+    | pgone rids =>
+      simp only [step] at h ⊢
+      split at h
+      · rename_i hd; rw [if_pos hd]; exact drain_answered_acked _ id h
+      · cases h
+    | waitAck w =>
+      simp only [step] at h ⊢
+      split at h
+      · rename_i hack; rw [if_pos hack]; exact hack
+      · cases h
+  exact ⟨key, (isAck_iff _).mp key⟩
+
+/-- **C03_waiter_kept**: a parked waiter is either answered by the step or still parked after it — no step loses one -/
+theorem C03_waiter_kept (d : Bool) (s : St) (ev : Ev) (id : Nat) (h : id ∈ s.waiters) :
+    id ∈ (step d s ev).2 ∨ id ∈ (step d s ev).1.waiters := by
+  cases ev with
+  | write => exact Or.inr h
+  | matchReader rid rel => simp only [step]; split <;> exact Or.inr h
+  | acknack rid base count =>
+    simp only [step]
+    split
+    · exact Or.inr h
+    · split
+      · exact Or.inr h
+      · exact drain_kept _ id h
+  | unmatch rid =>
+    simp only [step]
+    split
+    · exact drain_kept _ id h
+    · exact Or.inr h
+  | pgone rids =>
+    simp only [step]
+    split
+    · exact drain_kept _ id h
+    · exact Or.inr h
+  | waitAck w =>
+    simp only [step]
+    split
+    · exact Or.inr h
+    · exact Or.inr (List.mem_append_left _ h)
+
+/-- **C03_complete_on_unmatch**: when a matched reader is removed (`remove_discovered_reader`: the reader was deleted or
+    became incompatible) and the remaining reliable readers have acknowledged everything — the removed reader was the
+    last unacknowledging one — every parked waiter is answered `Ok` AT THAT STEP and the wait list is empty. -/
+theorem C03_complete_on_unmatch (d : Bool) (s : St) (rid : Nat) (hm : s.proxies.any (hasRid rid) = true)
+    (hrest : ∀ p, p ∈ s.proxies → p.rid ≠ rid → p.reliable = true → s.lastSn ≤ p.highestAcked) :
+    (step d s (.unmatch rid)).2 = s.waiters ∧ (step d s (.unmatch rid)).1.waiters = [] := by
+  simp only [step]
+  rw [if_pos hm]
+  have hack : ({ s with proxies := s.proxies.filter (notRid rid) } : St).isAck = true := by
+    rw [isAck_iff]
+    intro p hp hr
+    have hp' := List.mem_filter.mp hp
+    exact hrest p hp'.1 (by simpa [notRid] using hp'.2) hr
+  rw [drain_all _ hack]
+  exact ⟨rfl, rfl⟩
+
+/-- nobody is left waiting while everything is acknowledged -/
+def NotStuck (s : St) : Prop := s.waiters ≠ [] → s.isAck = false
+
+theorem isAck_write (s : St) (h : ({ s with lastSn := s.lastSn + 1 } : St).isAck = true) : s.isAck = true := by
+  rw [isAck_iff] at h ⊢
+  intro p hp hr
+  have := h p hp hr
+  simp only at this
+  omega
+
+theorem notStuck_step (d : Bool) (s : St) (ev : Ev) (hev : d = true ∨ ∀ rids, ev ≠ .pgone rids) (h : NotStuck s) :
+    NotStuck (step d s ev).1 := by
+  cases ev with
+  | write =>
+    intro hw
+    simp only [step] at hw ⊢
+    cases hb : ({ s with lastSn := s.lastSn + 1 } : St).isAck with
+    | false => rfl
+    | true => have := h hw; rw [isAck_write s hb] at this; cases this
+  | matchReader rid rel =>
+    simp only [step]
+    split
+    · exact h
+    · intro hw
+      simp only at hw
+      have hold := h hw
+      cases hb : ({ s with proxies := s.proxies ++ [{ rid := rid, reliable := rel, highestAcked := 0, lastAcknack := 0 }] } : St).isAck with
+      | false => rfl
+      | true =>
+        exfalso
+        have : s.isAck = true := by
+          rw [isAck_iff] at hb ⊢
+          intro p hp hr
+          exact hb p (List.mem_append_left _ hp) hr
+        rw [this] at hold; cases hold
+  | acknack rid base count =>
+    simp only [step]
+    split
+    · exact h
+    · split
+      · exact h
+      · exact drain_not_stuck _
+  | unmatch rid =>
+    simp only [step]
+    split
+    · exact drain_not_stuck _
+    · exact h
+  | pgone rids =>
+    simp only [step]
+    rcases hev with hd | hne
+    · rw [if_pos hd]; exact drain_not_stuck _
+    · exact absurd rfl (hne rids)
+  | waitAck w =>
+    simp only [step]
+    split
+    · exact h
+    · rename_i hack
+      intro _
+      have : s.isAck = false := by simpa using hack
+      exact this
+
+/-- **C03_no_stuck_waiter_partial**: along every event list that contains no participant removal (or on a tree in which
+    participant removal drains the wait list too), whenever `is_change_acknowledged(last)` holds the wait list is empty:
+    a `wait_for_acknowledgments` is answered no later than the step that makes everything acknowledged. Excluded:
+    `remove_discovered_participant` (see the counterexample below); on the real stack that path is additionally
+    blocked by D23 (the dead participant's reader is matched again). -/
+theorem C03_no_stuck_waiter_partial (d : Bool) (evs : List Ev) (hev : d = true ∨ ∀ e, e ∈ evs → ∀ rids, e ≠ .pgone rids) :
+    NotStuck (run d St.init evs) := by
+  have gen : ∀ (evs : List Ev) (s : St), (d = true ∨ ∀ e, e ∈ evs → ∀ rids, e ≠ .pgone rids) → NotStuck s → NotStuck (run d s evs) := by
+    intro evs
+    induction evs with
+    | nil => intro s _ h; exact h
+    | cons e es ih =>
+      intro s hev h
+      simp only [run]
+      apply ih
+      · rcases hev with hd | hne
+        · exact Or.inl hd
+        · exact Or.inr (fun x hx => hne x (List.mem_cons_of_mem _ hx))
+      · apply notStuck_step d s e _ h
+        rcases hev with hd | hne
+        · exact Or.inl hd
+        · exact Or.inr (hne e (List.mem_cons_self ..))
+  exact gen evs St.init hev (by intro h; exact absurd rfl h)
+
+/-- as the code is: the last reliable reader's participant is removed (lease expiry) while a waiter is parked — the
+    proxies go, everything counts as acknowledged, and the waiter is never answered; a new call is answered at once -/
+theorem C03_participant_gone_leaves_waiter_counterexample :
+    let s := run false St.init [.matchReader 1 true, .write, .waitAck 7, .pgone [1]]
+    s.waiters = [7] ∧ s.isAck = true ∧ (step false s (.waitAck 8)).2 = [8] := by decide
+
+/-- non-vacuity: two reliable readers and a best-effort one; the waiter is answered by the second reader's ACKNACK -/
+example :
+    let s := run false St.init [.matchReader 1 true, .matchReader 2 true, .matchReader 3 false, .write, .write, .waitAck 7,
+      .acknack 1 3 1]
+    s.waiters = [7] ∧ (step false s (.acknack 2 3 1)).2 = [7] ∧ (step false s (.unmatch 2)).2 = [7] := by decide
 
 end DustVerif.Rtps
